@@ -30,7 +30,18 @@ class Facts:
         self.bodies = {}
         import inline
 
+        import thread
+
+        thread.ADT_DISCR.clear()
+        for a in d["adts"]:
+            if a.get("kind") == "Enum" and all(isinstance(v.get("discr"), int) for v in a.get("variants", [])):
+                thread.ADT_DISCR[a["path"]] = [v["discr"] for v in a["variants"]]
         self.inlined = inline.apply(d["bodies"])
+        self.threaded = {}
+        for b in d["bodies"]:
+            n = thread.thread_body(b)
+            if n:
+                self.threaded[b["path"]] = n
         # a new private helper that was inlined into its callers is analysed there, not on its own
         by_path = {b["path"]: b for b in d["bodies"]}
         self.inlined_helpers = {}
@@ -741,6 +752,8 @@ class Body:
                 else:
                     path.append(ps)
             out |= self._through_aggregates(root, tuple(path), _depth, _seen)
+        if not out and _depth == 0:
+            return {(("infeasible",), ())}
         return out
 
     def _through_aggregates(self, root, path, depth, seen):
@@ -749,9 +762,28 @@ class Body:
             return {(root, path)}
         rv = self.agg_at(root[1], root[2])
         rest = list(path)
+        # `?` / unwrap applied to a literally built Option / Result: Ok(x)? and Some(x)? continue with x, a
+        # literal Err / None never reaches the continuation (infeasible alternative of a multiply assigned local)
+        if rest and rest[0] in (".branch", ".unwrap") and rv.get("adt") in ("std::result::Result", "std::option::Option"):
+            good = rv.get("variant") in ("Ok", "Some")
+            if rest[0] == ".branch":
+                if len(rest) >= 3 and rest[1] == " as Continue" and rest[2] == ".0":
+                    if not good:
+                        return set()
+                    rest = [" as " + rv["variant"], ".0"] + rest[3:]
+                elif len(rest) >= 2 and rest[1] == " as Break":
+                    return set() if good else {(root, path)}
+                else:
+                    return {(root, path)}
+            else:
+                if not good:
+                    return set()
+                rest = [" as " + rv["variant"], ".0"] + rest[1:]
         if rest and rest[0].startswith(" as "):
             if rv.get("variant") != rest[0][4:]:
-                return {(root, path)}
+                # reading the payload of another variant than the one built here: this definition does not
+                # reach that read
+                return set() if rv.get("kind") == "adt" and "variant" in rv else {(root, path)}
             rest = rest[1:]
         if not rest or not rest[0].startswith("."):
             return {(root, path)}
